@@ -89,6 +89,7 @@ def get_repo():
     from . import canon
     data0 = json.load(open(out))
     n_loops = canon.desugar_loops(data0)  # for_each / try_for_each statements read as `for` loops
+    canon.expand_self(data0)  # `Self { .. }` / `Self::V` spelled as the type
     canon.inline_local_closures(data0)  # calls of locally named closures read as the closure's body in place
     if os.path.exists(canon.TABLE):
         canon.expand_new_aliases(data0, set(json.load(open(canon.TABLE)).get("__aliases__", [])))  # type aliases added since the reference tree
